@@ -136,7 +136,7 @@ func (fr *frame) enterLoop(b *ssa.BasicBlock, li *loopInfo, ins []edgeIn) *State
 			continue
 		}
 		ctx := fr.specCtx(entry, fr.oldState(), nil, b, -1)
-		g, err := ctx.trBool(cl.Expr)
+		g, err := ctx.goal(cl.Expr)
 		if err != nil {
 			vc.warn("%s: loop %d invariant %q: %v", fr.fn, li.ordinal, cl.Text, err)
 			continue
@@ -299,7 +299,7 @@ func (fr *frame) backEdge(from, to *ssa.BasicBlock, li *loopInfo, cond string, s
 				fr.vals[p] = t
 			}
 			ctx := fr.specCtx(est, fr.oldState(), nil, to, -1)
-			g, err := ctx.trBool(cl.Expr)
+			g, err := ctx.goal(cl.Expr)
 			for p := range next {
 				fr.vals[p] = saved[p]
 			}
@@ -310,7 +310,7 @@ func (fr *frame) backEdge(from, to *ssa.BasicBlock, li *loopInfo, cond string, s
 			fr.oblige("inv-step", "", fmt.Sprintf("loop%d#%d/latch%d", li.ordinal, i, latchOrd(li, from)), est, g, cl.Text, cl.Tags)
 		case "iter":
 			ctx := fr.specCtx(est, fr.oldState(), li.hdrSt, from, len(from.Instrs))
-			g, err := ctx.trBool(cl.Expr)
+			g, err := ctx.goal(cl.Expr)
 			if err != nil {
 				vc.warn("%s: loop %d iter %q: %v", fr.fn, li.ordinal, cl.Text, err)
 				continue
@@ -455,7 +455,13 @@ func (fr *frame) instr(instr ssa.Instruction, st *State) bool {
 		dom, val := vc.keyMap(mt)
 		k := fr.val(x.Key)
 		v := fr.val(x.Value)
+		if nm := fr.nameOfValue(x.Map); nm != "" {
+			fr.mapKV = &[2]tv{{k, x.Key.Type()}, {v, x.Value.Type()}}
+			fr.checkAsserts("store-map "+nm, st)
+			fr.mapKV = nil
+		}
 		fr.oblige("safe", "mapnil", fr.nextAnchor("mapupdate"), st, fmt.Sprintf("(not (= %s 0))", m.S), "assignment to entry in nil map", nil)
+		fr.frameWrite(dom, m.S, st)
 		vc.set(st, dom, fmt.Sprintf("(store %s %s (store (select %s %s) %s true))", vc.cur(st, dom), m.S, vc.cur(st, dom), m.S, k.S))
 		vc.set(st, val, fmt.Sprintf("(store %s %s (store (select %s %s) %s %s))", vc.cur(st, val), m.S, vc.cur(st, val), m.S, k.S, v.S))
 	case *ssa.MakeMap:
@@ -1040,4 +1046,32 @@ func (fr *frame) allocSpec(ref Term, et types.Type, st *State) {
 		}
 		fr.assume(st, g)
 	}
+}
+
+// nameOfValue finds a source-level variable name bound to an SSA value.
+func (fr *frame) nameOfValue(v ssa.Value) string {
+	for _, b := range fr.fn.Blocks {
+		for _, nb := range fr.names[b] {
+			if nb.val == v && !nb.addr {
+				return nb.name
+			}
+		}
+	}
+	if p, ok := v.(*ssa.Parameter); ok {
+		return p.Name()
+	}
+	// loaded from a named local cell
+	if u, ok := v.(*ssa.UnOp); ok {
+		if a, ok := u.X.(*ssa.Alloc); ok {
+			return a.Comment
+		}
+		for _, b := range fr.fn.Blocks {
+			for _, nb := range fr.names[b] {
+				if nb.val == u.X && nb.addr {
+					return nb.name
+				}
+			}
+		}
+	}
+	return ""
 }
